@@ -976,8 +976,16 @@ func runDocCase(c dCase) dEvent {
 				switch g {
 				case 2:
 					od = dDoc{Kind: "errors", NErrors: 2, Coll: "none"}
-				case 3, 4, 5:
-					od = randDoc(rand.New(rand.NewSource(c.Seed + int64(g)*7919))) // other documents altogether
+				case 3, 4:
+					// small documents that are all linkage: one resource, its to-many relationships full of ids of
+					// their own, their data asked for (whatever is shared between calls is used most by these)
+					r := randDocRes(rand.New(rand.NewSource(c.Seed+int64(g))), "t1", "q")
+					r.Vals["m"] = jVal{IDs: []string{"x", "y", "z", "u", "v", "w"}[:2+g]}
+					r.Vals["m2"] = jVal{IDs: []string{"w", "v", "u"}[:g-2]}
+					od = dDoc{Kind: "one", Coll: "none", Primary: []dRes{r}, Fields: map[string][]string{"t1": {"m", "m2"}},
+						RelData: map[string][]string{"t1": {"m", "m2"}}}
+				case 5:
+					od = randDoc(rand.New(rand.NewSource(c.Seed + int64(g)*7919))) // another document altogether
 				}
 				var odoc *jsonapi.Document
 				var ourl *jsonapi.URL
